@@ -30,9 +30,9 @@ func (e *Engine) addOblig(st *State, kind, clause string, props []string, goal *
 	o := &Oblig{Name: name, Kind: kind, Props: props, Func: funcDisplay(ctx.fn), Goal: goal, Pos: e.posString(pos)}
 	if goal == smt.True {
 		o.Trivial = true
-	} else {
-		o.Hyps = st.pc.list()
 	}
+	o.pc = st.pc
+	o.Seq = len(e.Obligs)
 	ctx.nOblig++
 	e.Obligs = append(e.Obligs, o)
 }
@@ -238,11 +238,16 @@ func boundsD(x *smt.Term, d int) (lo, hi *big.Int, ok bool) {
 	case "const":
 		return x.Val, x.Val, true
 	case "+":
-		l1, h1, ok1 := boundsD(x.Args[0], d+1)
-		l2, h2, ok2 := boundsD(x.Args[1], d+1)
-		if ok1 && ok2 {
-			return new(big.Int).Add(l1, l2), new(big.Int).Add(h1, h2), true
+		lo, hi = new(big.Int), new(big.Int)
+		for _, a := range x.Args {
+			l1, h1, ok1 := boundsD(a, d+1)
+			if !ok1 {
+				return nil, nil, false
+			}
+			lo.Add(lo, l1)
+			hi.Add(hi, h1)
 		}
+		return lo, hi, true
 	case "-":
 		l1, h1, ok1 := boundsD(x.Args[0], d+1)
 		l2, h2, ok2 := boundsD(x.Args[1], d+1)
@@ -307,11 +312,23 @@ func boundsD(x *smt.Term, d int) (lo, hi *big.Int, ok bool) {
 	return nil, nil, false
 }
 
+// atomicTerm: a variable or a read of a heap variable. Only these carry a
+// type range that is valid independently of the path that built the term.
+func atomicTerm(t *smt.Term) bool {
+	switch t.Op {
+	case "var":
+		return true
+	case "select":
+		return atomicTerm(t.Args[0])
+	}
+	return false
+}
+
 func recordRange(t types.Type, v Value) {
 	if iv, ok := v.(IntV); ok && shapeOf(t) == shInt {
 		if _, isb := t.Underlying().(*types.Basic); isb {
 			lo, hi := intRange(t)
-			if _, ok := knownRanges[iv.T]; !ok && !iv.T.IsConst() {
+			if _, ok := knownRanges[iv.T]; !ok && atomicTerm(iv.T) {
 				knownRanges[iv.T] = [2]*big.Int{lo, hi}
 			}
 		}
@@ -695,6 +712,12 @@ func (e *Engine) convert(st *State, v Value, from, to types.Type, pos token.Pos)
 	case sf == shSlice && stt == shStr:
 		// string(bytes): snapshot of the array contents
 		s := v.(SliceV)
+		for _, sm := range st.streams {
+			if sm.elemKey == typeKey(s.Elem) && sm.arr == s.Arr {
+				// a window of the ghost stream
+				return StrV{Arr: sm.seq.Arr, Off: smt.Add(sm.base, smt.Sub(s.Off, sm.off)), Len: s.Len}
+			}
+		}
 		arr := e.elemArr(st, s)
 		return StrV{Arr: arr, Off: s.Off, Len: s.Len}
 	case sf == shStr && stt == shSlice:
